@@ -206,4 +206,20 @@ def cases(tier):
         out.append(
             Case(f"jump_symbolic_state_n{n}_ops{k}_d{d}", jump(n, k, d), covers=COVERS, bounds={"atoms": n, "jump_ops": k, "dim": d, "state": "symbolic product state"}, canaries=[], weight=(d**n) * 200, timeout_ms=120000, deadline_s=2400)
         )
+    # what a trajectory REPORTS: between jumps its norm decays, and observables are evaluated on the
+    # normalised state (with badly prepared atoms re-inserted in |g>) - shared with C13/C25
+    from harness.c13 import mps_fill_results
+
+    out.append(
+        Case(
+            "reported_state_is_normalised_N3_d2_chi2",
+            mps_fill_results(3, 2, 2),
+            covers=[("emu_mps/mps_backend_impl.py", "MPSBackendImpl.fill_results")],
+            bounds={"register_atoms": 3, "dim": 2, "chi": 2, "masks": "all with >= 2 good atoms (none bad included)", "state norm": "arbitrary (symbolic)"},
+            canaries=["dark_excited"],
+            weight=160,
+            timeout_ms=60000,
+            deadline_s=1500,
+        )
+    )
     return out
